@@ -6,7 +6,7 @@ namespace MoThreads.Queue
 
 /-- pcs at which the thread holds the queue's mutex -/
 def PC.holds : PC → Bool
-  | .sC .. | .sLen .. | .sTill .. | .sPark .. | .sRel2 .. | .sWoke .. | .sPost .. | .sAct .. | .sRel .. => true
+  | .sC .. | .sLen .. | .sTill .. | .sPark .. | .sRel2 .. | .sWoke .. | .sAlertT .. | .sAlertLen .. | .sAlertNum .. | .sPost .. | .sAct .. | .sRel .. => true
   | .pLen .. | .pPop | .pC .. | .pPark .. | .pRel2 .. | .pWoke .. | .pT .. => true
   | .oC | .oLen | .oPop | .lLen | .lClear | .nLen | .kClose => true
   | _ => false
